@@ -545,10 +545,15 @@ OTHER = [
     ("src/soplex/lprow.h", "typedef LPRowBase< Real > LPRow;", "typedef"),
     ("src/soplex/lprow.h", "typedef LPRowBase< Rational > LPRowRational;", "typedef"),
     ("src/soplex/spxdefines.h", "typedef double Real;", "Real is double in the default configuration"),
+    ("src/soplex_interface.h", "0 -> column is set to its upper bound * 1 -> column is set to its lower bound * 2 -> column is fixed to its identical bounds * 3 -> column is free and fixed to zero * 4 -> column is basic * 5 -> nothing known about basis status",
+     "the status codes documented for the C caller ..."),
     ("src/soplex/rational.h", "using Rational = number<gmp_rational, et_off>;", "Rational is boost's gmp_rational number: Rational(long, long) is num/den"),
 ]
 for f, text, why in OTHER:
     CONF.append({"file": f, "regex": ws(text), "why": why})
+CONF.append({"file": "src/soplex/spxsolver.h",
+             "regex": r"enum VarStatus\s*\{\s*ON_UPPER,[^,{}]*ON_LOWER,[^,{}]*FIXED,[^,{}]*ZERO,[^,{}]*BASIC,[^,{}]*UNDEFINED\b[^,{}]*\}",
+             "why": "... are the VarStatus enumerators in this order (ON_UPPER=0 .. UNDEFINED=5), no explicit values"})
 for c in CONF:
     txt = open(os.path.join(REPO, c["file"]), errors="replace").read()
     assert re.search(c["regex"], txt, re.S), ("conformance regex does not match today", c["file"], c["why"])
@@ -579,6 +584,8 @@ unit = {
         {"as": "SPxSolver_Status.inc", "file": "src/soplex/spxsolver.h", "regex": r"enum Status\s*\{.*?\};"},
     ],
     "conformance": CONF,
+    "replay": {"cpp": "replay.cpp", "extra_src": [SRC], "asan": True,
+               "libs": [os.path.join(REPO, "_build/lib/libsoplex.a"), "-lgmp", "-lmpfr", "-lz"]},
     "trusted": [
         "soplex.h / <iostream> are replaced by the recording stubs in units/cinterface: every SoPlexBase<Real> member the interface calls only records (call id, object, arguments) and returns a ghost value; what the C++ members DO is not covered",
         "stub signatures (parameter order, defaults, result types), LPCol/LPRow constructor parameter->member mapping, VectorBase(int, R*) copying ptr[0..dim), typedefs: conformance-checked by regex against the real headers on every run",
@@ -722,6 +729,7 @@ for s in SPECS:
     for t, n in ps:
         C.append("   %s %s;" % (t, n))
     C.append("   havoc_ghosts();")
+    C.append("   __CPROVER_input(\"g_k\", g_k); __CPROVER_input(\"g_get_size\", g_get_size); __CPROVER_input(\"g_str_len\", g_str_len);")
     C.append("   %s(%s);" % (s["name"], ", ".join(n for _, n in ps)))
     C.append("   CANARY();\n}")
     C.append("#endif\n")
